@@ -25,7 +25,8 @@ def DEC2HEX(dec, places=DEFAULT):
         places = utils.parse_integer(places)
         if isinstance(places, error.XLError):
             return places
-        if places < 0:
+        if places < 0 or places > 10:
+            # ten hexadecimal digits hold every number of the range (and padding to 1e9 places never ends)
             return error.NUM
     if not -549755813888 <= dec < 549755813888:
         return error.NUM
